@@ -99,3 +99,145 @@ pub(crate) fn slot_fields(bits: u64) -> (bool, usize, usize) {
     let w = LocalTree::from_bits(bits);
     (w.present(), w.row().0, w.free())
 }
+
+// ---------------------------------------------------------------------------------------------
+// L1b: Locals — slot-level contracts over symbolic slot words, with classes that have 0, 1 or 2 slots
+// (C09: no panic for any class configuration incl. classes without slots; C13: class of a stolen
+// reservation; C18: slot indices stay inside the class's slice).
+// ---------------------------------------------------------------------------------------------
+#[repr(align(64))]
+struct LBuf([u8; SLOT_BYTES * 4]);
+
+fn kind_policy(requested: Class, target: Class, _free: usize) -> Policy {
+    crate::verif_contracts::kpolicy::policy(requested, target, _free)
+}
+/// classes 0,1,2 with (n0, n1, n2) slots, n in 0..=2, at most 4 slots in total
+fn with_locals<R>(n: [usize; 3], f: impl FnOnce(&Locals, [usize; 3]) -> R) -> R {
+    let classing = Classing::new(&[(Class(0), n[0]), (Class(1), n[1]), (Class(2), n[2])], Class(0), kind_policy);
+    let mut buf = LBuf([0; SLOT_BYTES * 4]);
+    let locals = Locals::new(&mut buf.0[..], &classing).unwrap();
+    let mut c = 0;
+    while c < 3 {
+        let mut i = 0;
+        while i < n[c] {
+            let bits: u64 = kani::any();
+            kani::assume(slot_wf(bits));
+            set_slot(&locals, Class(c as u8), i, bits);
+            i += 1;
+        }
+        c += 1;
+    }
+    f(&locals, n)
+}
+fn any_opt_tree_small() -> Option<TreeId> {
+    if kani::any() {
+        let t: usize = kani::any();
+        kani::assume(t < 4);
+        Some(TreeId(t))
+    } else {
+        None
+    }
+}
+
+#[kani::proof]
+#[kani::unwind(10)]
+#[kani::solver(kissat)]
+#[kani::stub(crate::atomic::Atom::try_update, crate::atomic::Atom::try_update_seq)]
+fn l1b_locals_steal_any() {
+    check_steal_any([1, 1, 0]);
+}
+#[kani::proof]
+#[kani::unwind(10)]
+#[kani::solver(kissat)]
+#[kani::stub(crate::atomic::Atom::try_update, crate::atomic::Atom::try_update_seq)]
+fn l1b_locals_steal_any_2_1_0() {
+    check_steal_any([2, 1, 0]);
+}
+fn check_steal_any(cfg: [usize; 3]) {
+    crate::verif_contracts::kpolicy::init(false);
+    with_locals(cfg, |l, n| {
+        let class: u8 = kani::any();
+        kani::assume(class < 3);
+        let index: Option<usize> = if kani::any() { Some(kani::any()) } else { None };
+        // valid parameter: a slot index below the requesting class's slot count, or none
+        kani::assume(index.is_none_or(|i| i < n[class as usize]));
+        let free: usize = kani::any();
+        kani::assume(free >= 1 && free <= TREE_FRAMES);
+        let tree = any_opt_tree_small();
+        let r = l.steal_any(Class(class), index, tree, free, kind_policy);
+        vcover!(r.is_some(), "a reservation is stolen from");
+        if let Some(res) = r {
+            let k = crate::verif_contracts::kpolicy::kind(Class(class), res.class);
+            clause!(k == 0 || k == 2, "C13: steal_any only takes frames from classes the policy rates as match or stealable");
+            clause!((res.class.0 as usize) < 3 && n[res.class.0 as usize] > 0, "steal_any reports a class that has slots");
+            clause!(tree.is_none_or(|t| res.row.as_tree() == t), "steal_any honours the requested tree");
+        }
+    });
+}
+
+#[kani::proof]
+#[kani::unwind(10)]
+#[kani::solver(kissat)]
+#[kani::stub(crate::atomic::Atom::try_update, crate::atomic::Atom::try_update_seq)]
+fn l1b_locals_demote_any() {
+    check_demote_any([1, 1, 0]);
+}
+#[kani::proof]
+#[kani::unwind(10)]
+#[kani::solver(kissat)]
+#[kani::stub(crate::atomic::Atom::try_update, crate::atomic::Atom::try_update_seq)]
+fn l1b_locals_demote_any_0_1_2() {
+    check_demote_any([0, 1, 2]);
+}
+fn check_demote_any(cfg: [usize; 3]) {
+    crate::verif_contracts::kpolicy::init(false);
+    with_locals(cfg, |l, n| {
+        let class: u8 = kani::any();
+        kani::assume(class < 3);
+        let local: Option<usize> = if kani::any() { Some(kani::any()) } else { None };
+        kani::assume(local.is_none_or(|i| i < n[class as usize]));
+        let free: usize = kani::any();
+        kani::assume(free >= 1 && free <= TREE_FRAMES);
+        let tree = any_opt_tree_small();
+        let r = l.demote_any(Class(class), local, tree, free, kind_policy);
+        vcover!(r.is_some(), "a reservation is demoted");
+        if let Some((row, old)) = r {
+            clause!(tree.is_none_or(|t| row.as_tree() == t), "demote_any honours the requested tree");
+            if local.is_none() {
+                clause!(old.is_some_and(|o| o.row == row && o.class.0 == class), "without a slot the demoted tree itself is handed back for unreservation");
+            }
+        }
+    });
+}
+
+#[kani::proof]
+#[kani::unwind(10)]
+#[kani::stub(crate::atomic::Atom::try_update, crate::atomic::Atom::try_update_seq)]
+fn l1b_locals_get_put_swap() {
+    with_locals([1, 2, 0], |l, n| {
+        let class: u8 = kani::any();
+        kani::assume(class < 8);
+        let idx: usize = kani::any();
+        // valid parameter: slot index below the class's slot count (classes without slots get none)
+        kani::assume((class as usize) < 3 && idx < n[class as usize]);
+        let (p0, t0, f0, _) = slot_word(l, Class(class), idx);
+        let free: usize = kani::any();
+        kani::assume(free <= TREE_FRAMES);
+        let tree = any_opt_tree_small();
+        let r = l.get(Class(class), idx, tree, free);
+        let (p1, t1, f1, _) = slot_word(l, Class(class), idx);
+        match r {
+            Ok(row) => {
+                clause!(p0 && f0 >= free && f1 == f0 - free && tree.is_none_or(|t| t.0 == t0) && row.as_tree().0 == t0, "Locals::get decrements the slot counter of the held tree");
+            }
+            Err(_) => clause!(p1 == p0 && f1 == f0 && t1 == t0, "Locals::get: failure leaves the slot unchanged"),
+        }
+        let ptree = TreeId(kani::any::<usize>() % 4);
+        let padd: usize = kani::any();
+        kani::assume(padd <= TREE_FRAMES && f1 + padd <= TREE_FRAMES);
+        let ok = l.put(Class(class), idx, ptree, padd);
+        let (p2, t2, f2, _) = slot_word(l, Class(class), idx);
+        clause!(ok == (p1 && t1 == ptree.0), "Locals::put succeeds iff the slot holds that tree");
+        clause!(p2 == p1 && t2 == t1 && f2 == if ok { f1 + padd } else { f1 }, "Locals::put adds exactly the freed frames");
+    });
+}
